@@ -7,10 +7,20 @@ BUILT = {
   technique='property-based differential testing (Hypothesis-generated typed expression trees; integer reference model cross-checked by gcc+clang) + exhaustive operator x type-pair x boundary-value sweep',
   level='exploration',
   text='Generated-input search: every case is a UB-free integer expression with a model-predicted value/size/signedness, placed in one of 7 contexts; chibicc must print what the model, gcc and clang all print. The sweep visits all 81 type pairs x 18 binary operators (+ op= forms) x boundary values exhaustively. Absence of violations is evidence, not proof.',
-  note='trusts gcc 12/clang 14 at -O0 and the Python integer model (model/gcc disagreement discards the case, never raises an alarm); postfix ++/-- on _Bool excluded while it is a recorded finding'),
+  note='trusts gcc 12/clang 14 at -O0 and the Python integer model (model/gcc disagreement discards the case, never raises an alarm)'),
  'C07': dict(
   technique='property-based metamorphic + differential testing (constant context vs run-time twin in one program; model; gcc+clang consensus) + enumerated negative cases',
   level='exploration',
   text='Each generated constant expression is placed in 11 constant contexts next to its run-time twin; chibicc-compiled output must equal model, gcc and clang. 108 undefined constant expressions x contexts must be diagnosed with file:line, never crash.',
   note='trusts gcc/clang constant folding and the integer model; floating constant expressions are compared only through reference consensus'),
+ 'C02': dict(
+  technique='property-based differential testing: Hypothesis-generated conversions/operators/nested expressions/literals over special-value pools entered through bit patterns; raw result bits vs gcc+clang consensus; exact rational definedness predicate',
+  level='exploration',
+  text='All 12x12 conversion pairs in 5 syntactic forms, every fp/mixed operator, truth context, op=, ++/--, nested expressions, decimal and hex constants and variadic promotion are generated over pools of boundary-class bit patterns; chibicc must produce the bit-identical result of gcc and clang.',
+  note='trusts gcc/clang IEEE/x87 code generation at -O0; NaN payloads canonicalised; decimal constants whose correctly-rounded value differs from two-step rounding are excluded (C11 6.4.4.2p3 allows either)'),
+ 'C03': dict(
+  technique='property-based differential testing: Hypothesis-generated statement skeletons with trace markers and shadowing programs; printed execution trace vs gcc+clang consensus',
+  level='exploration',
+  text='Random nestings of every statement form (switch over 10 controlling types with negative/wide/range cases, Duff shapes, goto, computed goto, do-continue, short-circuit, statement expressions) and shadowing programs over object/typedef/enumerator/tag/label name spaces; the trace printed by the chibicc build must equal the references.',
+  note='trusts gcc/clang for the GNU extensions used; depth bounded (3 quick, 4 thorough)'),
 }
